@@ -768,7 +768,9 @@ impl Gen {
                         self.rng.below(ns)
                     };
                     let depth = 1 + self.rng.weighted(&[3, 1]);
+                    let snapshot = vars.len();
                     let p = self.ctor_pattern(s, depth, &mut vars);
+                    let p = connect(p, &mut vars, snapshot, &mut self.rng);
                     let only_vars = p.args().iter().all(|x| x.as_atom().is_some());
                     if only_vars {
                         ctor_atoms.push(p.clone());
@@ -783,13 +785,18 @@ impl Gen {
                 }
                 1 => {
                     let r = self.sig.rels[self.rng.below(self.sig.rels.len())].clone();
+                    let snapshot = vars.len();
                     let args = r.args.iter().map(|t| self.pat_arg(t, 1, &mut vars)).collect();
-                    facts.push(Sexp::call(&r.name, args));
+                    let p = connect(Sexp::call(&r.name, args), &mut vars, snapshot, &mut self.rng);
+                    facts.push(p);
                 }
                 _ => {
                     let f = self.sig.funcs[self.rng.below(self.sig.funcs.len())].clone();
+                    let snapshot = vars.len();
                     let args: Vec<Sexp> =
                         f.args.iter().map(|t| self.pat_arg(t, 1, &mut vars)).collect();
+                    let call = connect(Sexp::call(&f.name, args), &mut vars, snapshot, &mut self.rng);
+                    let args: Vec<Sexp> = call.args().to_vec();
                     let v = self.fresh_var("v");
                     if f.out == FuncOut::I64 {
                         vars.push((v.clone(), Ty::I64));
@@ -1272,6 +1279,41 @@ impl Gen {
         }
         ops
     }
+}
+
+pub fn rename(t: &Sexp, from: &str, to: &str) -> Sexp {
+    match t {
+        Sexp::Atom(s) if s == from => Sexp::atom(to),
+        Sexp::List(v) => Sexp::List(v.iter().map(|x| rename(x, from, to)).collect()),
+        _ => t.clone(),
+    }
+}
+
+/// Make the atom `p` share a variable with the atoms generated before it
+/// (`vars[..snapshot]`), when a type-compatible one exists: disconnected
+/// bodies are cross products and explode.
+fn connect(p: Sexp, vars: &mut Vec<(String, Ty)>, snapshot: usize, rng: &mut Rng) -> Sexp {
+    if snapshot == 0 {
+        return p;
+    }
+    let shares = vars[..snapshot].iter().any(|(n, _)| mentions(&p, n));
+    if shares {
+        return p;
+    }
+    let fresh: Vec<(String, Ty)> = vars[snapshot..].to_vec();
+    for (name, ty) in fresh {
+        let olds: Vec<String> = vars[..snapshot]
+            .iter()
+            .filter(|(_, t)| *t == ty)
+            .map(|(n, _)| n.clone())
+            .collect();
+        if !olds.is_empty() {
+            let old = olds[rng.below(olds.len())].clone();
+            vars.retain(|(n, _)| *n != name);
+            return rename(&p, &name, &old);
+        }
+    }
+    p
 }
 
 pub fn mentions(t: &Sexp, name: &str) -> bool {
